@@ -88,6 +88,11 @@ impl Rng {
     }
 }
 
+/// under the Miri interpreter (about four orders of magnitude slower) every monitor shrinks its cases
+pub fn small() -> bool {
+    cfg!(miri) || std::env::var("XV_SMALL").is_ok()
+}
+
 pub fn fnv1a(b: &[u8]) -> u64 {
     let mut h: u64 = 0xcbf29ce484222325;
     for x in b {
